@@ -248,3 +248,11 @@ Definition py_format_str (v:pyval) : res := match v with VStr s => Normal (VStr 
 Definition py_list_append (l x:pyval) : res := match l with VList a => Normal (VList (a ++ [x])) | _ => Exc AttributeError end.
 Definition py_list_insert (l i x:pyval) : res :=
   match l, i with VList a, VInt z => let k := clamp (List.length a) (Some z) O in Normal (VList (firstn k a ++ x :: skipn k a)) | _, _ => Exc TypeError end.
+Definition py_rev_same (v:pyval) : res := match v with VList l => Normal (VList (rev l)) | VTuple l => Normal (VTuple (rev l)) | VStr s => Normal (VStr (rev s)) | _ => Exc TypeError end.
+Definition py_divmod (a b:pyval) : res := q <- py_floordiv a b ;; r <- py_mod a b ;; Normal (VTuple [q; r]).
+Definition py_min2 (a b:pyval) : res := match a, b with VInt x, VInt y => Normal (VInt (Z.min x y)) | _, _ => Exc TypeError end.
+Definition py_max2 (a b:pyval) : res := match a, b with VInt x, VInt y => Normal (VInt (Z.max x y)) | _, _ => Exc TypeError end.
+Definition py_abs (a:pyval) : res := match a with VInt x => Normal (VInt (Z.abs x)) | _ => Exc TypeError end.
+
+(* every non-recursive generated function is registered here, so that refinement scripts can inline helpers whatever their names *)
+Create HintDb gen_db.
